@@ -31,6 +31,30 @@ def strip_set(t):
             return t
 
 
+_own_state = {}
+
+
+def _hands_out_own_state(ctx, qn):
+    """some path of qn returns an object reachable from self (a field, an element of a field) rather than one built for the caller"""
+    key = (id(ctx.M), qn)
+    if key not in _own_state:
+        res = False
+        try:
+            for p_ in summarise(ctx, qn, policy=default_policy):
+                v = p_.value
+                if p_.outcome != 'return' or v is None:
+                    continue
+                while v[0] in ('sub', 'attr'):
+                    if v[0] == 'attr' and v[1] == V('self'):
+                        res = True
+                        break
+                    v = v[1]
+        except Exception:
+            res = True
+        _own_state[key] = res
+    return _own_state[key]
+
+
 def _rooted_in(loc, r):
     while loc[0] in ('sub', 'attr'):
         loc = loc[1]
@@ -56,6 +80,9 @@ def union_operands(t):
         for a in t[2]:
             out += union_operands(a) or [strip_set(a)]
         return out
+    if t0[0] == 'call' and t0[1] == ('ext', 'SET') and len(t0[2]) == 1 and t0[2][0][0] == 'call' and t0[2][0][1] == ('ext', 'itertools.chain') and not t0[2][0][3]:
+        # set(chain(xs, ys, ...)): the distinct elements of the iterables in turn
+        return [strip_set(a) for a in t0[2][0][2]]
     if t0[0] == 'call' and t0[1] == ('ext', 'SET') and len(t0[2]) == 1 and t0[2][0][0] == 'call' and t0[2][0][1] == ('ext', 'CONCAT'):
         # set(xs + ys): the distinct elements of a concatenation are the union
         out = []
@@ -140,7 +167,9 @@ def s1_asset_set(ctx, rule):
         ctx.require(has_u, rule, 'the asset set includes the universe at dt', sz[0].site, [fmt(o)[:80] for o in ops], key='%s|universe' % rule)
         ctx.require(not other, rule, 'the asset set is exactly held assets UNION universe(dt)', sz[0].site, [fmt(o)[:80] for o in other], key='%s|union' % rule)
         # the answers of the universe and of the broker are read, not edited: an in-place change of the list the universe hands out would persist into later rebalances
-        muts = [e for e in p.flat_events() if e.kind == 'write' and not e.d.get('local') and str(e.how).startswith('mut:') and any(e.loc == r or _rooted_in(e.loc, r) for r in hres | ures)]
+        # (an answer built afresh for the caller - a dict comprehension, a copy - is the caller's to change; one that IS the callee's own list is not)
+        shared = {e_.result for e_ in held + uni if any(_hands_out_own_state(ctx, q_) for q_ in e_.callee)}
+        muts = [e for e in p.flat_events() if e.kind == 'write' and not e.d.get('local') and str(e.how).startswith('mut:') and any(e.loc == r or _rooted_in(e.loc, r) for r in shared)]
         ctx.require(not muts, rule, 'the universe\'s and the broker\'s answers are not modified in place', muts[0].site if muts else sz[0].site,
                     ['%s %s' % (m.how, fmt(m.loc)[:80]) for m in muts], key='%s|no-mutation' % rule)
     ctx.floor(rule, 'construction paths with a recognised asset set', n, 2)
